@@ -21,4 +21,4 @@ def run(F, rep):
     dt_seq.kmer_iter_tables(F, rep, "C13.2")
     dt_seq.accessor_tables(F, rep, "C13.4")
     dt_seq.slice_view_tables(F, rep, "C13.6")
-    structural.kmer_default_methods(F, rep)
+    dt_seq.kmer_default_tables(F, rep, "C13.5")
